@@ -29,7 +29,7 @@ class C15(Check):
                                                                            ('default', 'junos', 'iosxe', 'iosxr', 'csr'), creds):
             for subs in ([True], [False]) if (profile == 'default' and auths == [True]) else ([True],):
                 out.append({'kind': 'ssh', 'verify': verify, 'known': known, 'pinned': pinned, 'cb': cb, 'profile': profile, 'negotiates': True,
-                            'auths': auths, 'subs': subs})
+                            'auths': auths, 'subs': subs, 'authx': len(out) % 3})
         # the same decisions with an OpenSSH configuration file given (ssh_config=...), whose options must not weaken the verification
         CFG = [['StrictHostKeyChecking no'], ['StrictHostKeyChecking accept-new'], ['StrictHostKeyChecking off', 'CheckHostIP no'],
                ['StrictHostKeyChecking yes'], ['UpdateHostKeys yes', 'HashKnownHosts yes'], ['VerifyHostKeyDNS yes', 'StrictHostKeyChecking ask'],
@@ -61,8 +61,11 @@ class C15(Check):
                 ek = dict((pat, kn) for pat, kn in entries)
                 under_host, under_port = ek.get(host), ek.get('[%s]:%d' % (host, port))
                 known = 'h' if under_host == sk else ('p' if under_port == sk else ('d' if (under_host or under_port) else 'a'))
-                connects.append({'kind': 'ssh', 'verify': True, 'known': known, 'pinned': rng.choice('aaaamd'), 'cb': rng.random() < 0.2,
-                                 'profile': 'default', 'negotiates': True, 'auths': rng.choice([[True], [True], [False]]), 'subs': [True],
+                # profiles mix within one process (some install an accept-all callback for THEIR connection only); the caller passes an
+                # accepting / a refusing callback or none at all
+                connects.append({'kind': 'ssh', 'verify': True, 'known': known, 'pinned': rng.choice('aaaamd'), 'cb': rng.choice([True, False, False, None, None]),
+                                 'profile': rng.choice(['default', 'default', 'junos', 'nexus', 'iosxe', 'iosxr', 'csr']), 'negotiates': True,
+                                 'auths': rng.choice([[True], [True], [False]]), 'subs': [True], 'authx': rng.randrange(3),
                                  'host': host, 'port': port, 'server_key': sk})
             out.append({'kind': 'sshseq', 'entries': entries, 'connects': connects})
         for t in ('right-ca', 'wrong-ca', 'wrong-hostname', 'wrong-hostname-unchecked', 'no-ca-but-system-store',
@@ -127,7 +130,7 @@ class C15(Check):
                 os.environ['SSL_CERT_FILE'] = env_old
 
     def _line(self, case):
-        cb = True if case['profile'] in OVERRIDING else case['cb']
+        cb = True if case['profile'] in OVERRIDING else bool(case['cb'])
         return 'cn ssh %d %s %s %d %d %s %s' % (case['verify'], case['known'], case['pinned'], cb, case['negotiates'], bits(case['auths']), bits(case['subs']))
 
     def model_lines(self, case):
@@ -159,8 +162,8 @@ class C15(Check):
         a, b = list(io['trace']), list(mo['trace'])
         # the key comparison is internal (no call on the transport) and profile-installed callbacks cannot be logged
         b = [e for e in b if not e.startswith('check:')]
-        if case['profile'] in OVERRIDING:
-            b = [e for e in b if not e.startswith('callback:')]
+        if case['profile'] in OVERRIDING or case['cb'] is None:
+            b = [e for e in b if not e.startswith('callback:')]      # the library's own default callback cannot be logged
         if a != b or io['result'] != mo['result']:
             return 'impl=%r/%s model=%r/%s' % (a, io['result'], b, mo['result'])
         return None
@@ -188,7 +191,7 @@ class C15(Check):
         tr = io['trace']
         auth_offered = any(e.startswith('auth:') for e in tr)
         netconf = any(e == 'hello' or e.startswith('subsystem') or e == 'open' for e in tr)
-        cb = True if case['profile'] in OVERRIDING else case['cb']
+        cb = True if case['profile'] in OVERRIDING else bool(case['cb'])
         if case['pinned'] == 'm':
             accepted = True
         elif case['pinned'] == 'd':
